@@ -71,6 +71,7 @@ def check(case):
 
     base = case["base"]
     feats = gp.features(base)
+    xbase = sem.expand(base)
     plrun.reset_state()
     eng = DefaultEngine()
     try:
@@ -82,7 +83,7 @@ def check(case):
     models = [list(base)]
     parents = [None]
     base_preds = set()
-    for s in base:
+    for s in xbase:
         if s[0] in ("fact", "rule"):
             base_preds.add(s[1][0])
         elif s[0] == "pfact":
@@ -130,7 +131,7 @@ def check(case):
                         models[k].append(stmt)
                         break
                     a = parents[a]
-            heads = [stmt[1]] if stmt[0] in ("fact", "rule") else ([stmt[2]] if stmt[0] == "pfact" else [a_ for _, a_ in stmt[1]])
+            heads = [stmt[1]] if stmt[0] in ("fact", "rule", "rule_or") else ([stmt[2]] if stmt[0] == "pfact" else [a_ for _, a_ in stmt[1]])
             for h in heads:
                 if h[0] in base_preds:
                     touched.setdefault(j, set()).add(h[0])
@@ -204,11 +205,17 @@ def _cases(draw):
     extra = draw(gp.programs(min_queries=1, allow_neg_query=False, allow_evidence=False, max_preds=3))
     arity = {}
     for s in base:
-        for h in ([s[1]] if s[0] in ("fact", "rule") else [s[2]] if s[0] == "pfact" else [a for _, a in s[1]]):
+        for h in ([s[1]] if s[0] in ("fact", "rule", "rule_or") else [s[2]] if s[0] == "pfact" else [a for _, a in s[1]]):
             arity[h[0]] = len(h[1])
 
     def ok(stmt):
         atoms = []
+        if stmt[0] == "rule_or":
+            atoms.append(stmt[1])
+            atoms += [[l[1], l[2]] for l in stmt[2] + stmt[3] + stmt[4]]
+            for l in stmt[2] + stmt[3] + stmt[4]:
+                if l[1] not in arity:
+                    return False
         if stmt[0] in ("fact", "rule"):
             atoms.append(stmt[1])
         elif stmt[0] == "pfact":
@@ -253,6 +260,7 @@ def _all_prog(case):
 
 
 KNOWN_CLASSES = {
+    "cyclic_or_complement": lambda case, failure: gp.cyclic_body_disjunction_with_complement(_all_prog(case)),
     "negcycle_fp": lambda case, failure: gp.neg_on_cyclic_goal_under_active_cycle(_all_prog(case)),
     "neg_under_cycle": lambda case, failure: gp.neg_under_active_cycle(_all_prog(case)),
     "ad_cyclic_complement": lambda case, failure: gp.cyclic_multihead_ad_with_complementary_body(_all_prog(case)),
